@@ -23,7 +23,7 @@ Requirements for the change:
 * It must be a plausible bug a maintainer could introduce (a refactor slip, an off-by-one, a dropped guard, a wrong operator, a stale cache, two sites that each look fine alone but interact), in cubed's own source (not tests, not vendored third-party internals unless cubed calls them).
 * It must need something specific to manifest — a particular interleaving, a crash or fault at a particular point, a multi-step sequence of API calls, an unusual input (geometry, chunking, dtype, option combination), or two cooperating sites — NOT something ordinary use or the existing tests expose at once. Prefer subtle over blatant. Avoid changes that merely raise an exception everywhere.
 * The existing test suite must still pass with it: run `cd {wt} && PYTHONPATH={wt} /venv/bin/python -m pytest -q -p no:cacheprovider -x -k "not spark" -n 4 --timeout=900` (spark-parametrised tests are flaky in this sandbox and may be ignored; the run takes several minutes; the machine is shared and busy). If tests fail because of your change, make the change subtler.
-* The demonstration must exercise cubed through its public API (or the public entry points named in the property) and clearly show the property being violated (wrong value, lost write, wrong count, missing error, error of the wrong kind/phase, ...). It must FAIL (non-zero exit / failing assertion) with the change and PASS on the unmodified code: verify both (`git stash` / `git stash pop`, or `git diff > patch.diff; git checkout -- .; run; git apply patch.diff; run`).
+* The demonstration must exercise cubed through its public API (or the public entry points named in the property) and clearly show the property being violated (wrong value, lost write, wrong count, missing error, error of the wrong kind/phase, ...). It must FAIL (non-zero exit / failing assertion) with the change and PASS on the unmodified code: verify both with `git diff -- cubed > /tmp/my-{pid}.diff; git checkout -- cubed; <run>; git apply /tmp/my-{pid}.diff; <run>` — never use `git stash` (stashes are shared between all worktrees of the repository, and other people work in sibling worktrees).
 
 Deliver, in the directory {wt}/_deliver/ :
   patch.diff   — `git diff` of your change (source files only, relative to the repository root, applies with `git apply`)
